@@ -127,6 +127,27 @@ type world13 struct {
 
 var subPerms = [][]int{{0, 1, 2, 3}, {3, 2, 1, 0}, {1, 3, 0, 2}, {2, 0, 3, 1}}
 
+// orders of the seven sub-extensions of a platform certificate (0-3 mandatory, 4-6 optional)
+var subPerms7 = [][]int{
+	{0, 1, 2, 3, 4, 5, 6},
+	{0, 1, 2, 4, 3, 5, 6},
+	{4, 5, 6, 0, 1, 2, 3},
+	{6, 5, 4, 3, 2, 1, 0},
+	{0, 4, 1, 5, 2, 6, 3},
+	seeded7(),
+}
+
+// seeded7: the order in which 1..7 appear in the seeded permutation of 1..18.
+func seeded7() []int {
+	var out []int
+	for _, v := range seededPerm {
+		if v <= 7 {
+			out = append(out, v-1)
+		}
+	}
+	return out
+}
+
 func mkWorld13(tcbPerm []int, subPerm []int, nested bool, extra bool) world13 {
 	var w world13
 	for i := range w.v.comp {
@@ -149,12 +170,18 @@ func mkWorld13(tcbPerm []int, subPerm []int, nested bool, extra bool) world13 {
 	})}
 	subs := []asn1.RawValue{octetExt(sgxOid(1), w.ppid, nested), tcbExt, octetExt(sgxOid(3), w.pceid, nested), octetExt(sgxOid(4), w.fmspc, nested)}
 	var sgx []asn1.RawValue
-	for _, i := range subPerm {
-		sgx = append(sgx, subs[i])
-	}
 	if extra {
-		// further SGX sub-extensions (platform instance id, configuration ...) are ignored
-		sgx = append(sgx, octetExt(sgxOid(6), vp.Bytes("other", 16), false))
+		// platform certificates carry three further sub-extensions (SGX type, platform instance id,
+		// configuration); they are ignored wherever they stand among the mandatory four
+		subs = append(subs, octetExt(sgxOid(5), vp.Bytes("sgxtype", 1), false), octetExt(sgxOid(6), vp.Bytes("platforminstance", 16), false),
+			octetExt(sgxOid(7), vp.Bytes("configuration", 3), false))
+		for _, i := range subPerms7[vp.Choose("subOrder7", len(subPerms7))] {
+			sgx = append(sgx, subs[i])
+		}
+	} else {
+		for _, i := range subPerm {
+			sgx = append(sgx, subs[i])
+		}
 	}
 	sgxBlob := blob(&asn1Ghost{isSeq: true, seq: sgx})
 	other := pkix.Extension{Id: asn1.ObjectIdentifier{2, 5, 29, 14}, Value: []byte{1}}
@@ -238,50 +265,6 @@ func H13c_Malformed() {
 	}
 	_, err := PckCertificateExtensions(w.cert)
 	vp.Assert("malformed-is-an-error", err != nil)
-}
-
-// H13d: n <= 3 TCB elements with symbolic last OID arc and symbolic value: each
-// element updates exactly the slot named by its OID and nothing else.
-func H13d_SymbolicOidArcs() { h13d(1 + vp.Choose("n", 2)) }
-
-// thorough tier: three elements with symbolic OIDs
-func T13e_SymbolicOidArcs3() { h13d(3) }
-
-func h13d(n int) {
-	var seq []asn1.RawValue
-	arcs := make([]int, n)
-	vals := make([]int64, n)
-	for i := 0; i < n; i++ {
-		arcs[i] = vp.IntRange("arc"+string(rune('0'+i)), 0, 20)
-		vals[i] = vp.I64("val" + string(rune('0'+i)))
-		vp.Assume(vals[i] >= 0)
-		vp.Assume(vals[i] <= 255)
-		seq = append(seq, asn1.RawValue{FullBytes: blob(&asn1Ghost{atv: &pkix.AttributeTypeAndValue{Type: sgxOid(2, arcs[i]), Value: vals[i]}})})
-	}
-	tcb := &PckCertTCB{}
-	err := extractTcbExtension(seq, tcb)
-	// arc 18 carries an int64 here, which is not an OCTET STRING: an error
-	has18 := false
-	for i := 0; i < n; i++ {
-		has18 = vp.Or(has18, arcs[i] == 18)
-	}
-	vp.Assert("error-iff-cpusvn-mistyped", (err != nil) == has18)
-	if err != nil {
-		return
-	}
-	for slot := 1; slot <= 16; slot++ {
-		// the last element naming the slot wins; unnamed slots stay zero
-		want := int64(0)
-		for i := 0; i < n; i++ {
-			want = vp.IteI64(arcs[i] == slot, vals[i], want)
-		}
-		vp.Assert("slot-holds-the-value-of-its-oid", int64(tcb.CPUSvnComponents[slot-1]) == want)
-	}
-	wantP := int64(0)
-	for i := 0; i < n; i++ {
-		wantP = vp.IteI64(arcs[i] == 17, vals[i], wantP)
-	}
-	vp.Assert("pcesvn-slot", int64(tcb.PCESvn) == wantP)
 }
 
 // H10g (property C10): pcs.PckCertificateExtensions never panics, whatever the DER decodes to:
